@@ -22,7 +22,7 @@ func init() {
 			"R2: every PayInvoiceViaChannel call is cut off by fee <= 3 x Wallet.GetFlatOpeningTXFee() (fee = DecodePayreq amount / 1000 of the very payreq that is paid, directly or through the OpeningTxFee field written from it before the test) and by SpendableMsat >= amount*1000 + invoice msat (64-bit); the unguarded side returns only Event_ActionFailed. " +
 			"R3: GetOpeningTXAmount returns request amount + swap-in premium for a swap-in and the bare amount for a swap-out, GetClaimAmount the converse (per return: value and dominating request test); every CreateOpeningTransaction call passes OpeningParams.Amount = GetOpeningTXAmount(); every claim-type GetPayreq call asks for GetClaimAmount()*1000; in the action that registers the confirmation watch every non-failing exit is cut off by decoded invoice amount == GetClaimAmount()*1000 (inline or through a helper whose nil return is cut off by param == 1000*param, called with these two values) or by the legacy branch AllowNewClaimPayment == false, in which case the RebalancePayment call must be dominated by AllowNewClaimPayment == true; the decoded payreq is the paid one; the pay state is entered only from such states. " +
 			"R4: the Premium field of both agreement messages is the result of premium.Setting.Compute(requester, asset, op, amount) with op = SwapIn for the swap-in agreement and SwapOut for the swap-out agreement, asset = LBTC exactly on the lbtc-chain branch; PremiumLimit of locally created requests is (*premium.PPM).Compute of NewPPM(rate parameter) applied to the value stored in Amount of the same message. " +
-			"R5: outside the responder actions the agreement fields of SwapData are stored only under `field == nil` (a peer cannot replace an agreement whose premium was already checked). Guards, effects and replies are followed through in-module helpers (bool predicates, error-returning checks incl. `return check(x)`, reply/delivery helpers; parameters bound to arguments, depth <= 3) and through values selected into locals (phis are judged per incoming edge); a shape that cannot be interpreted yields an undecided obligation (exit 2), a violation is reported only when the whole relevant code was interpreted.",
+			"R5: outside the responder actions the agreement fields of SwapData are stored only under `field == nil` (a peer cannot replace an agreement whose premium was already checked). R6: per exported result-producing method of premium.Setting, whether the result can come from a field of the Setting object that is written after construction (map updates, deletes, clears and stores through the receiver, in all functions of the package reached from it); on the pinned tree there is none (answers from the store only). If there is one, every method of Setting that reaches a bbolt write must write that field on each success path: a store-changing method that never writes it is a violation; keyed invalidation is undecided (keying is not interpreted), a reset on all paths discharges. Guards, effects and replies are followed through in-module helpers (bool predicates, error-returning checks incl. `return check(x)`, reply/delivery helpers; parameters bound to arguments, depth <= 3) and through values selected into locals (phis are judged per incoming edge); a shape that cannot be interpreted yields an undecided obligation (exit 2), a violation is reported only when the whole relevant code was interpreted.",
 		NotD: "Arithmetic wrap-around of uint64(int64(amount)+premium) for premiums below -amount and of amount*1000; float rounding of the factor 3 and the truncation of msat/1000; whether the lightning node pays exactly the decoded amount; that a swap carries only the agreement of its own kind (a foreign-kind agreement stored by SendEvent before the acceptability test makes CheckPremiumAmount dereference a nil request: a crash, not an overpayment); concurrency between the premium check and later reads.",
 		Run:  runC12,
 	})
@@ -557,6 +557,7 @@ func runC12(c *an.Check) {
 	c.Rule("C12.R2", "the fee payment is cut off by fee <= 3 x own estimate and by spendable >= amount*1000 + fee msat, for the payreq that is paid")
 	c.Rule("C12.R3", "amount getters, the amounts handed to CreateOpeningTransaction / GetPayreq, and the taker's invoice-amount equality all use request amount (+ premium of the matching kind)")
 	c.Rule("C12.R4", "agreement Premium = premium.Setting.Compute(requester, asset of the chain, operation of the swap kind, amount); PremiumLimit of local requests = PPM(rate).Compute(amount)")
+	c.Rule("C12.R6", "the rate a responder charges is resolved from the rate store on every call; state of premium.Setting that a result can also come from is written by every method that changes the store")
 	c.Rule("C12.R5", "agreement fields of SwapData are write-once outside the responder actions")
 	if !needEffects(c, fxPay, fxOpenTx, fxPayViaChannel, fxGetPayreq, fxDecodePayreq, fxWaitConf, fxActionExecute,
 		"iface:swap.LightningClient.SpendableMsat", "iface:swap.Wallet.GetFlatOpeningTXFee") {
@@ -618,6 +619,7 @@ func runC12(c *an.Check) {
 	c12R3(c, ts)
 	c12R4(c, ts)
 	c12R5(c, respExec)
+	c12R6(c)
 }
 
 // ---- R1 ----------------------------------------------------------------------------------------
@@ -1453,6 +1455,386 @@ func c12R5(c *an.Check, respExec map[*ssa.Function]bool) {
 		}
 	}
 	c.AtLeast("C12.R5", "agreement stores outside the responder actions", n, 2)
+}
+
+// ---- R6: cache coherence of premium.Setting ----------------------------------------------------
+
+// c12Use records how the functions of package premium use the fields of *Setting
+// (only accesses of a live object, i.e. not of a freshly allocated one).
+type c12Use struct {
+	reads, writes, resets map[string][]ssa.Instruction
+	calls                 map[string][]ssa.CallInstruction // the field (or its address) handed to a call
+	opaque                map[string][]ssa.Instruction
+}
+
+func c12NewUse() *c12Use {
+	return &c12Use{reads: map[string][]ssa.Instruction{}, writes: map[string][]ssa.Instruction{}, resets: map[string][]ssa.Instruction{}, calls: map[string][]ssa.CallInstruction{}, opaque: map[string][]ssa.Instruction{}}
+}
+
+// c12FieldUses: direct uses of Setting fields in fn.
+func c12FieldUses(w *an.World, st *types.Named, fn *ssa.Function) *c12Use {
+	u := c12NewUse()
+	sst, _ := st.Underlying().(*types.Struct)
+	if sst == nil {
+		return u
+	}
+	var useVal func(name string, v ssa.Value, depth int)
+	useVal = func(name string, v ssa.Value, depth int) {
+		if v.Referrers() == nil {
+			return
+		}
+		for _, r := range *v.Referrers() {
+			switch y := r.(type) {
+			case *ssa.MapUpdate:
+				if y.Map == v {
+					u.writes[name] = append(u.writes[name], y)
+				}
+			case *ssa.Lookup:
+				if y.X == v {
+					u.reads[name] = append(u.reads[name], y)
+				}
+			case *ssa.Range:
+				u.reads[name] = append(u.reads[name], y)
+			case *ssa.Index, *ssa.IndexAddr, *ssa.Slice:
+				u.reads[name] = append(u.reads[name], y.(ssa.Instruction))
+				if ia, ok := y.(*ssa.IndexAddr); ok && ia.Referrers() != nil {
+					for _, rr := range *ia.Referrers() {
+						if s, ok := rr.(*ssa.Store); ok && s.Addr == ia {
+							u.writes[name] = append(u.writes[name], s)
+						}
+					}
+				}
+			case ssa.CallInstruction:
+				switch w.Info(y).Name {
+				case "builtin:delete":
+					u.writes[name] = append(u.writes[name], y)
+				case "builtin:clear":
+					u.resets[name] = append(u.resets[name], y)
+				case "builtin:len", "builtin:cap":
+					u.reads[name] = append(u.reads[name], y)
+				default:
+					u.calls[name] = append(u.calls[name], y)
+				}
+			case *ssa.BinOp, *ssa.If:
+				u.reads[name] = append(u.reads[name], y.(ssa.Instruction))
+			case *ssa.MakeInterface, *ssa.ChangeType, *ssa.Convert:
+				if depth < 3 {
+					useVal(name, y.(ssa.Value), depth+1)
+				}
+			case *ssa.DebugRef:
+			default:
+				u.opaque[name] = append(u.opaque[name], r)
+			}
+		}
+	}
+	for _, b := range fn.Blocks {
+		for _, in := range b.Instrs {
+			fa, ok := in.(*ssa.FieldAddr)
+			if !ok || an.NamedOf(fa.X.Type()) != st {
+				continue
+			}
+			if _, fresh := fa.X.(*ssa.Alloc); fresh {
+				continue // construction
+			}
+			name := sst.Field(fa.Field).Name()
+			if fa.Referrers() == nil {
+				continue
+			}
+			for _, r := range *fa.Referrers() {
+				switch y := r.(type) {
+				case *ssa.Store:
+					if y.Addr == fa {
+						u.resets[name] = append(u.resets[name], y)
+					} else {
+						u.opaque[name] = append(u.opaque[name], y)
+					}
+				case *ssa.UnOp:
+					if y.Op == token.MUL {
+						useVal(name, y, 0)
+					}
+				case ssa.CallInstruction:
+					u.calls[name] = append(u.calls[name], y)
+				case *ssa.FieldAddr:
+					// a field of an embedded struct value (e.g. a mutex inside): treated as a call-only use
+					if y.Referrers() != nil {
+						for _, rr := range *y.Referrers() {
+							if ci, ok := rr.(ssa.CallInstruction); ok {
+								u.calls[name] = append(u.calls[name], ci)
+							} else {
+								u.opaque[name] = append(u.opaque[name], rr)
+							}
+						}
+					}
+				case *ssa.DebugRef:
+				default:
+					u.opaque[name] = append(u.opaque[name], r)
+				}
+			}
+		}
+	}
+	return u
+}
+
+func c12IsBoltWrite(e an.EffectSite) bool {
+	if e.Info.Recv == nil || e.Info.Recv.Obj().Pkg() == nil || !strings.HasSuffix(e.Info.Recv.Obj().Pkg().Path(), "go.etcd.io/bbolt") {
+		return false
+	}
+	switch e.Info.Recv.Obj().Name() + "." + e.Info.Method {
+	case "Bucket.Put", "Bucket.Delete", "Bucket.DeleteBucket", "Bucket.CreateBucket", "Bucket.CreateBucketIfNotExists", "Bucket.SetSequence", "Bucket.NextSequence",
+		"Tx.DeleteBucket", "Tx.CreateBucket", "Tx.CreateBucketIfNotExists", "Cursor.Delete":
+		return true
+	}
+	return false
+}
+
+func c12IsBolt(e an.EffectSite) bool {
+	return e.Info.Recv != nil && e.Info.Recv.Obj().Pkg() != nil && strings.HasSuffix(e.Info.Recv.Obj().Pkg().Path(), "go.etcd.io/bbolt")
+}
+
+func c12R6(c *an.Check) {
+	w := c.W
+	st := w.Named("premium", "Setting")
+	if st == nil {
+		c.Anchor("premium.Setting does not resolve")
+		return
+	}
+	sst, ok := st.Underlying().(*types.Struct)
+	if !ok {
+		c.Anchor("premium.Setting is not a struct")
+		return
+	}
+	// functions of package premium and their direct uses of Setting fields
+	var fns []*ssa.Function
+	uses := map[*ssa.Function]*c12Use{}
+	for _, fn := range prodFuncs(w) {
+		if w.FnRel(fn) != "premium" || fn.Blocks == nil {
+			continue
+		}
+		fns = append(fns, fn)
+		uses[fn] = c12FieldUses(w, st, fn)
+	}
+	// transitive closure over static in-module calls (closures included via Summary)
+	closure := func(fn *ssa.Function) []*ssa.Function {
+		seen := map[*ssa.Function]bool{fn: true}
+		out := []*ssa.Function{fn}
+		for _, e := range w.Summary(fn).Effects {
+			if g := e.Info.Static; g != nil && uses[g] != nil && !seen[g] {
+				seen[g] = true
+				out = append(out, g)
+			}
+			if e.In != nil && uses[e.In] != nil && !seen[e.In] {
+				seen[e.In] = true
+				out = append(out, e.In)
+			}
+		}
+		return out
+	}
+	// field classes
+	isLock := func(t types.Type) bool {
+		n := an.NamedOf(t)
+		return n != nil && n.Obj().Pkg() != nil && n.Obj().Pkg().Path() == "sync" && (n.Obj().Name() == "Mutex" || n.Obj().Name() == "RWMutex")
+	}
+	storeField := map[string]bool{}
+	for _, fn := range fns {
+		for name, cs := range uses[fn].calls {
+			for _, ci := range cs {
+				g := ci.Common().StaticCallee()
+				if g == nil || g.Blocks == nil {
+					continue
+				}
+				for _, e := range w.Summary(g).Effects {
+					if c12IsBolt(e) {
+						storeField[name] = true
+					}
+				}
+			}
+		}
+	}
+	var cand []string
+	for i := 0; i < sst.NumFields(); i++ {
+		f := sst.Field(i)
+		if isLock(f.Type()) || storeField[f.Name()] {
+			continue
+		}
+		cand = append(cand, f.Name())
+	}
+	if !c.AtLeast("C12.R6", "fields of premium.Setting through which the bbolt store is reached", len(storeField), 1) {
+		return
+	}
+	// post-construction writers of the candidate fields anywhere in the module
+	written := map[string][]string{}
+	opaqueField := map[string][]string{}
+	for _, name := range cand {
+		for _, fn := range fns {
+			u := uses[fn]
+			if n := len(u.writes[name]) + len(u.resets[name]); n > 0 {
+				written[name] = append(written[name], w.FuncName(fn))
+			}
+			if len(u.calls[name])+len(u.opaque[name]) > 0 {
+				opaqueField[name] = append(opaqueField[name], w.FuncName(fn))
+			}
+		}
+		for _, sw := range w.FieldWriters("Setting." + name) {
+			fn := sw.Parent()
+			if an.IsTestSupport(w.FnRel(fn)) || uses[fn] != nil {
+				continue
+			}
+			if fa, ok := sw.Addr.(*ssa.FieldAddr); ok {
+				if _, fresh := fa.X.(*ssa.Alloc); !fresh && an.NamedOf(fa.X.Type()) == st {
+					written[name] = append(written[name], w.FuncName(fn))
+				}
+			}
+		}
+	}
+	// methods of Setting
+	var methods []*ssa.Function
+	for _, fn := range fns {
+		if fn.Parent() == nil && fn.Signature.Recv() != nil && an.NamedOf(fn.Signature.Recv().Type()) == st && fn.Synthetic == "" {
+			methods = append(methods, fn)
+		}
+	}
+	sort.Slice(methods, func(i, j int) bool { return w.FuncName(methods[i]) < w.FuncName(methods[j]) })
+	errIdx := func(fn *ssa.Function) int {
+		r := fn.Signature.Results()
+		for i := 0; i < r.Len(); i++ {
+			if an.IsErrorType(r.At(i).Type()) {
+				return i
+			}
+		}
+		return -1
+	}
+	// result-producing methods and the mutable state they can answer from
+	caches := map[string]bool{}
+	nRes := 0
+	for _, m := range methods {
+		if !m.Object().Exported() {
+			continue
+		}
+		r := m.Signature.Results()
+		producing := false
+		for i := 0; i < r.Len(); i++ {
+			if !an.IsErrorType(r.At(i).Type()) {
+				producing = true
+			}
+		}
+		if !producing {
+			continue
+		}
+		nRes++
+		cons := w.FuncName(m) + " result source"
+		var fromState, unsure []string
+		for _, g := range closure(m) {
+			u := uses[g]
+			for _, name := range cand {
+				readsHere := len(u.reads[name]) > 0
+				if readsHere && len(written[name]) > 0 {
+					fromState = append(fromState, name)
+					caches[name] = true
+				}
+				if len(u.calls[name])+len(u.opaque[name]) > 0 {
+					unsure = append(unsure, "field "+name+" is used in "+w.FuncName(g)+" in a way this rule does not interpret (a call on it, or its address escapes)")
+				}
+			}
+		}
+		switch {
+		case len(unsure) > 0:
+			c.Unknown("C12.R6", cons, w.Pos(m.Pos()), strings.Join(sortedKeys(c12Set(unsure)), "; "))
+		case len(fromState) > 0:
+			c.OK("C12.R6", cons, w.Pos(m.Pos()), "can also answer from mutable state of the Setting object (field "+strings.Join(sortedKeys(c12Set(fromState)), ", ")+"); its coherence with the store is decided per store-changing method")
+		default:
+			c.OK("C12.R6", cons, w.Pos(m.Pos()), "answers from the store (and the built-in defaults) only: no field of Setting that is written after construction is read")
+		}
+	}
+	c.AtLeast("C12.R6", "result-producing methods of premium.Setting", nRes, 1)
+	if len(caches) == 0 {
+		return
+	}
+	// every method that changes the store must write each cache field on its success paths
+	for _, m := range methods {
+		changes := false
+		for _, e := range w.Summary(m).Effects {
+			if c12IsBoltWrite(e) {
+				changes = true
+			}
+		}
+		if !changes {
+			continue
+		}
+		for _, name := range sortedKeys(caches) {
+			cons := w.FuncName(m) + " cache Setting." + name
+			pos := w.Pos(m.Pos())
+			// points of m after which the field has been written: direct writes, calls of functions that write it
+			stop := map[*ssa.BasicBlock]bool{}
+			reset := false
+			touches := false
+			mark := func(in ssa.Instruction) { stop[in.Block()] = true; touches = true }
+			for _, in := range uses[m].writes[name] {
+				mark(in)
+			}
+			for _, in := range uses[m].resets[name] {
+				mark(in)
+				reset = true
+			}
+			for _, ci := range an.Calls(m) {
+				if _, isGo := ci.(*ssa.Go); isGo {
+					continue
+				}
+				g := ci.Common().StaticCallee()
+				if g == nil || uses[g] == nil {
+					continue
+				}
+				for _, h := range closure(g) {
+					if len(uses[h].writes[name])+len(uses[h].resets[name]) > 0 {
+						mark(ci)
+					}
+				}
+			}
+			if !touches {
+				c.Bad("C12.R6", cons, pos, fmt.Sprintf("%s changes the rate store but never writes Setting.%s, from which %s can answer (written by %s): after this call a rate that is no longer the configured one keeps being returned and charged until restart", w.FuncName(m), name, "the rate lookups", strings.Join(sortedKeys(c12Set(written[name])), ", ")))
+				continue
+			}
+			reach := an.ReachBlocks([]*ssa.BasicBlock{m.Blocks[0]}, nil, stop)
+			uncovered := ""
+			ei := errIdx(m)
+			if ei < 0 {
+				for _, r := range an.Returns(m) {
+					if r.Block() != m.Recover && reach[r.Block()] && !stop[r.Block()] {
+						uncovered += " " + w.Pos(r.Pos())
+					}
+				}
+			} else {
+				x := c12XOf(w)
+				for _, cs := range c12Cases(m, ei, false) {
+					if cs.lost {
+						uncovered += " ?" + w.Pos(cs.ret.Pos())
+						continue
+					}
+					if !an.IsNilConst(cs.v) && x.nonNil(cs) {
+						continue
+					}
+					if !stop[cs.b] && reach[cs.b] {
+						uncovered += " " + w.Pos(cs.ret.Pos())
+					}
+				}
+			}
+			switch {
+			case uncovered != "":
+				c.Unknown("C12.R6", cons, pos, "Setting."+name+" is written by this store-changing method, but not on every success path (returns at"+uncovered+"); this rule cannot decide whether the skipped cases need it")
+			case reset:
+				c.OK("C12.R6", cons, pos, "every success path resets Setting."+name)
+			default:
+				c.Unknown("C12.R6", cons, pos, "every success path writes Setting."+name+", but this rule does not interpret the keying: it cannot decide that exactly the entries that depend on the changed rate are dropped")
+			}
+		}
+	}
+}
+
+func c12Set(xs []string) map[string]bool {
+	m := map[string]bool{}
+	for _, x := range xs {
+		m[x] = true
+	}
+	return m
 }
 
 // ---- BEGIN shared expansion (identical in c11.go and c12.go up to the prefix) ----
